@@ -749,13 +749,24 @@ def history_select(ctx, rng, c):
     r2, raw2 = observe(m, E2)
     if r2 != want2:
         bad('interleave-differs', 'call with other events differs from a new instance', r2, want2)
+    # returned values are owned by the caller (checked right after the foreign call and again below)
+    def check_keep():
+        for n, a, cp in keep:
+            if a.tobytes() != cp.tobytes():
+                bad('result-overwritten', f'{n} returned by an earlier call was changed by a later call', n, None)
+    check_keep()
     r1c, _ = observe(m, E1)
     if r1c != r1:
         bad('interleave-differs', 'result changed after a call with other events', r1c, r1)
-    # returned values are owned by the caller
-    for n, a, cp in keep:
-        if a.tobytes() != cp.tobytes():
-            bad('result-overwritten', f'{n} returned by an earlier call was changed by a later call', n, None)
+    check_keep()
+    if raw1 and raw1b:
+        inputs1 = [E1[n] for n in E1.field_name_list] + [E1.indices]
+        for n1, a in result_arrays(raw1):
+            for n2, b in result_arrays(raw1b):
+                if (a.size and b.size and np.shares_memory(a, b)
+                        and not any(np.shares_memory(a, x) for x in inputs1)):
+                    bad('result-aliased', f'{n1} of one call shares memory with {n2} of the next call (not an input)',
+                        [n1, n2], None)
     if raw1 and raw2:
         for n1, a in result_arrays(raw1):
             for n2, b in result_arrays(raw2):
